@@ -14,7 +14,7 @@ package vgirpc
 // deserializeParams: no client-supplied batch makes it index an empty column (C03), and a
 // handler's parameters are bound only from a batch whose schema equals the declared one (C07).
 //
-//@ func deserializeParams
+//@ func deserializeParamsChecked
 //@   property C03, C07
 
 // resolveColumn: the column index it returns exists.
@@ -39,3 +39,17 @@ package vgirpc
 //@   at call strings.TrimPrefix#1 setflag dv result
 //@   at store tagInfo.Default assert [stored] value != nil && *value == dv
 //@   at call strings.HasPrefix#1 assert [option] arg0 == parts[2 + rangeindex] && arg1 == "default="
+
+// deserializeParams itself lets no panic out: everything that reads the client's columns
+// (deserializeParamsChecked, which may panic on buffers whose contents contradict their framing)
+// runs behind its recovering defer, and the recovering literal reports an error and panics no more.
+//
+//@ func deserializeParamsChecked
+//@   maypanic
+//@ func deserializeParams
+//@   property C03
+//@   nopanic(index, slice, typeassert, divide, makeslice, call, recovered)
+//@ func deserializeParams$1
+//@   property C03
+//@   nopanic
+//@   ensures [local_reported] rv != nil ==> err != nil
